@@ -24,6 +24,7 @@ fn gen(family: Family, universe: u32, weights: Vec<(Kd, u32)>) -> Gen {
         huge_reserve: false,
         fresh_counter: 0,
         max_hint: 3000,
+        no_fill: false,
         churn: None,
         order: Vec::new(),
     }
@@ -329,6 +330,31 @@ pub fn spec_for(prop: &str, thorough: bool, rng: &mut Rng) -> RunSpec {
             let n_ops = if thorough { *rng.pick(&[5000usize, 5000, 20000, 100000]) } else { *rng.pick(&[2000usize, 5000, 5000]) };
             RunSpec { world, cfg, gen: g, n_ops }
         }
+        "C18" => {
+            // the same scenario must mean the same under both group widths: no capacity-dependent
+            // composite operations; tag sets steer reached groups onto the carry-sensitive neighbours
+            // maps only: with duplicates and partially consumed iterators a HashTable history legitimately
+            // depends on the bucket layout, which differs between group widths
+            let table = false;
+            let world = if table { "T24".to_string() } else { pick_world(rng, &[("M16", 3), ("Mpod", 2)]) };
+            let mut cfg = base_cfg(rng, 3);
+            cfg.group_monitor = true;
+            if rng.below(2) == 0 {
+                let t = rng.below(128) as u8;
+                let tags = rng.pick(&[vec![t, t ^ 1], vec![0x00, 0x01], vec![0x7e, 0x7f], vec![t]]).clone();
+                let p = if rng.below(2) == 0 {
+                    Plan::SeqTag { stride: 1, offset: rng.below(64) as u32, tags }
+                } else {
+                    Plan::PosTag { pos: (0..*rng.pick(&[1usize, 2, 3, 8])).map(|_| rng.below(4096) as u32).collect(), tags, layer: *rng.pick(&[57u8, 4, 5]), seed: rng.next() }
+                };
+                cfg.plans = vec![p.clone(), p.clone(), p];
+            }
+            let base: Vec<(Kd, u32)> = if table { TABLE_CORE.iter().copied().filter(|x| x.0 != Kd::FillNoAlloc).collect() } else { MAP_CORE.to_vec() };
+            let mut g = gen(if table { Family::Table } else { Family::Map }, universe, swarm(rng, &base));
+            g.no_fill = true;
+            g.macro_den = *rng.pick(&[10, 20]);
+            RunSpec { world, cfg, gen: g, n_ops }
+        }
         "C14" => {
             let world = pick_world(rng, MAP_WORLDS);
             let cfg = base_cfg(rng, 3);
@@ -386,6 +412,7 @@ pub fn owns(prop: &str, v: &Violation) -> bool {
         "C12" => starts(c, "tryreserve/") || starts(c, "alloc/invalid-layout") || (k == "TryReserve" && (functional || starts(c, "ledger/") || starts(c, "alloc/") || starts(c, "inv/"))),
         "C13" => starts(c, "churn/") || starts(c, "inv/I4") || starts(c, "hang/") || starts(c, "diverge/"),
         "C14" => starts(c, "entry/") || (k == "Entry" && (functional || starts(c, "inv/"))),
+        "C18" => starts(c, "group/") || starts(c, "differential/") || functional || starts(c, "entry/") || starts(c, "inv/"),
         "C15" => starts(c, "getmany/") || (functional && ["GetMany", "GetManyKv", "TGetMany"].contains(&k)),
         _ => true,
     }
